@@ -8,7 +8,7 @@ MODEL_TARGETS = ["Model/Ledger"]
 HARNESS = [
     {"bin": "ledger", "tag": "ledger",
      "quick": {"cases": 160, "len": 40, "shards": 16},
-     "thorough": {"cases": 3000, "len": 120, "shards": 64},
+     "thorough": {"cases": 1200, "len": 80, "shards": 48},
      "search": {"cases": 400, "len": 60}},
 ]
 RULE = ("each case is a seeded mixed history over accounts, market, 1-2 real miners (created through the real "
